@@ -338,8 +338,8 @@ func oracleC06(f *sessionFam, w *World, res *Result) []Violation {
 		a := sp.Name
 		ctx := f.sessCtx(a)
 		hs := w.evs(a, "c-handshake")
-		if len(hs) == 0 {
-			continue
+		if len(hs) == 0 || len(w.evs(a, "c-handshake-aborted")) > 0 {
+			continue // the client gave up during the handshake: nothing to compare its (lost) response with
 		}
 		conns := w.evs(a, "connection")
 		admitted := hs[0].N == 200 || hs[0].N == 101
